@@ -18,6 +18,7 @@ import tempfile
 
 from lib import fw
 from lib import crashfs
+from lib import deathbox
 
 PROP = 'C09'
 COQ_HEADER = ('From Coq Require Import String.\nFrom Coq Require Import List.\nFrom FV Require Import Model.C09_Model.\n'
@@ -290,21 +291,33 @@ def _fedavg_algorithm():
 
 
 def _state_bytes(state):
-  """Signature of a state pytree, leaf by leaf: leaf TYPE (jax.Array / numpy / python scalar), dtype, weak_type
-  and bit pattern.  Two states with equal signatures behave identically under dtype promotion."""
+  """Signature of a state pytree: its TREE STRUCTURE (container kinds, keys, None sub-trees) and, leaf by leaf, the
+  leaf TYPE (jax.Array / numpy / python scalar), dtype incl. byte order, weak_type, shape, Fortran-contiguity and bit
+  pattern.  Two states with equal signatures behave identically under dtype promotion."""
   import jax
   import numpy as np
-  out = []
+  out = [repr(jax.tree_util.tree_structure(state)).encode()]
   for l in jax.tree_util.tree_leaves(state):
     kind = b'J' if isinstance(l, jax.Array) else b'N' if isinstance(l, (np.ndarray, np.generic)) else \
         b'P' + type(l).__name__.encode()
     weak = b'w' if getattr(l, 'weak_type', False) else b's'
     a = np.asarray(l)
-    out.append(kind + weak + a.dtype.str.encode() + str(a.shape).encode() + a.tobytes())
+    order = b'F' if isinstance(l, np.ndarray) and l.ndim > 1 and l.flags.f_contiguous and not l.flags.c_contiguous else b'C'
+    out.append(kind + weak + order + a.dtype.str.encode() + str(a.shape).encode() + a.tobytes())
   return b'|'.join(out)
 
 
+class _NT(collections.namedtuple('_NT', ['a', 'b'])):
+  """A NamedTuple node inside the server state (picklable: module level)."""
+  __slots__ = ()
+
+
 _MIXED = {}
+
+
+def _readonly(a):
+  a.setflags(write=False)
+  return a
 
 
 def _mixed_algorithm():
@@ -320,7 +333,13 @@ def _mixed_algorithm():
     return {'lr': jnp.asarray(0.5), 'w': jnp.ones((4,), jnp.bfloat16), 'h': jnp.ones((3,), jnp.float16) * 2,
             'count': jnp.zeros((), jnp.int32), 'key': jax.random.PRNGKey(7),
             'steps': jnp.asarray(0), 'i8': jnp.arange(3, dtype=jnp.int8), 'flag': jnp.zeros((2,), jnp.bool_),
-            'np64': np.array([1.0, 2.0]), 'py': 0, 'empty': jnp.zeros((0,), jnp.float32)}
+            'np64': np.array([1.0, 2.0]), 'py': 0, 'empty': jnp.zeros((0,), jnp.float32),
+            # memory layouts of numpy leaves: Fortran order, big-endian, 0-d, a non-contiguous view, read-only
+            'fo': np.asfortranarray(np.arange(6, dtype=np.float32).reshape(2, 3)), 'be': np.arange(3, dtype='>i4'),
+            'z0': np.float32(1.5), 'view': np.arange(8, dtype=np.int16)[::2], 'ro': _readonly(np.ones(2, np.float32)),
+            'cx': jnp.asarray([1 + 2j, 0.5j], jnp.complex64),
+            # container kinds: tuple, list, NamedTuple, None sub-tree, nested dict with keys not in sorted order
+            'nest': (jnp.ones((2,), jnp.float32), [np.zeros(1, np.int64), None], _NT(a=jnp.asarray(1.0), b={'z': 1, 'a': 2.5}))}
 
   def apply(state, clients):
     d = _client_digest(clients)
@@ -332,7 +351,11 @@ def _mixed_algorithm():
     return {'lr': lr * 0.75, 'w': w - lr * g, 'h': h - lr * gh + noise * lr, 'count': state['count'] + 1,
             'key': key, 'steps': state['steps'] + 1, 'i8': state['i8'] + state['steps'] % 3,
             'flag': jnp.logical_not(state['flag']), 'np64': state['np64'] * 0.5, 'py': state['py'] + 1,
-            'empty': state['empty']}, {}
+            'empty': state['empty'], 'fo': state['fo'] * 0.5 + 1, 'be': state['be'] + 1, 'z0': state['z0'] * 2,
+            'view': state['view'][::-1] if state['view'].shape[0] else state['view'], 'ro': state['ro'],
+            'cx': state['cx'] * (1j) + lr,
+            'nest': (state['nest'][0] * lr, [state['nest'][1][0] + (2 ** 31), None],
+                     _NT(a=state['nest'][2].a * 0.5, b={'z': state['nest'][2].b['z'] + 1, 'a': state['nest'][2].b['a']}))}, {}
   if not _MIXED:
     _MIXED['alg'] = fedjax.FederatedAlgorithm(init, apply)
   return _MIXED['alg'], init()
@@ -428,18 +451,48 @@ def _make_evals(env, case):
   if form & 2:
     per['p2'] = PeriodicTrain()
     finals['zz'] = NoMetrics()
-    if nev == 0 and form & 1:
+    if nev == 0 and form & 1 and not form & 4:
       return types.MappingProxyType(per), None
     return types.MappingProxyType(per), types.MappingProxyType(finals)
   return per, finals
 
 
-def _one_run(case, root, crash, ctx):
+def _ctx_to_json(ctx):
+  return {'ref_states': None if ctx.get('ref_states') is None else [b.hex() for b in ctx['ref_states']],
+          'ref_tsv': ctx.get('ref_tsv'), 'R': ctx.get('R')}
+
+
+def _ctx_from_json(j):
+  return {'ref_states': None if j['ref_states'] is None else [bytes.fromhex(h) for h in j['ref_states']],
+          'ref_tsv': j['ref_tsv'], 'R': j['R']}
+
+
+def _one_run_child(case, root, crash, ctx_json):
+  """Runs in a forked child of a deathbox zygote (its own PYTHONHASHSEED): the crash is a real process death."""
+  return _one_run(case, root, crash, _ctx_from_json(ctx_json), real_death=True)
+
+
+def _one_run_in_process(case, root, crash, ctx, hashseed):
+  r = deathbox.box(hashseed).call('harness.c09', '_one_run_child', [case, root, crash, _ctx_to_json(ctx)])
+  if r['error'] or (r['result'] is None and r['death'] is None):
+    raise RuntimeError('deathbox child failed: %s' % (r['error'] or r['exit']))
+  out = r['result'] if r['result'] is not None else r['death']
+  if 'dir' not in out:       # the process died: look at what it left behind
+    out['dir'] = _observe_dir(root, ctx)
+  return out
+
+
+def _one_run(case, root, crash, ctx, real_death=False):
   """One call of run_federated_experiment on `root`.  crash = None | [k, sub, cls]."""
   from fedjax.training import federated_experiment as fe
   cfg = case['cfg']
   rec = crashfs.Recorder(*(crash if crash else (None, 0, 0)))
   env = _Env(root, rec, lambda name, data: _decode(name, data, ctx))
+  if real_death:
+    rec.on_death = lambda r: deathbox.die_now({'crashed': True, 'error': None, 'state': None,
+                                                'trace': [list(e) for e in r.trace],
+                                                'raw_writes': {str(k): v for k, v in r.raw_writes.items()},
+                                                'flags': env.flags})
   env.glob_order = (case.get('form', 0) + case['cfg']['keep']) % 3
   out = {'crashed': False, 'error': None, 'state': None}
   with _Patched(env):
@@ -732,8 +785,12 @@ def run(case):
       for n in FOREIGN:
         with open(os.path.join(root, n), 'wb') as f:
           f.write(b'\x07\x07')
-    for crash in list(case['crashes']) + [None]:
-      r = _one_run(case, root, crash, ctx)
+    procs = case.get('procs')
+    for n, crash in enumerate(list(case['crashes']) + [None]):
+      if procs:    # every call of the history in a NEW process with its own PYTHONHASHSEED; a crash kills it
+        r = _one_run_in_process(case, root, crash, ctx, procs[n % len(procs)])
+      else:
+        r = _one_run(case, root, crash, ctx)
       runs.append({'crashed': r['crashed'], 'error': r['error'], 'state': r['state'], 'dir': r['dir'],
                    'trace': r['trace'], 'flags': r['flags'], 'state_bytes': r.get('state_bytes'),
                    'state_summary': r.get('state_summary')})
@@ -785,6 +842,16 @@ def oracle(case, obs):
     for n, content, _ in r['dir']:
       if _CK.match(n) and content[0] != 'w':
         out.append(('visible-checkpoint-torn', f'run {i}: {n} is visible under its final name but does not unpickle'))
+      elif _CK.match(n) and case['algo'] == 'toy':
+        k = int(_CK.match(n).group(1))
+        c, h = 0, 0
+        for d in obs['digests'][:k]:
+          c, h = c + 1, (h * P + d) % M
+        if k > len(obs['digests']) or content[1:] != [0, c, h]:
+          out.append(('checkpoint-holds-wrong-round', f'run {i}: {n} holds {content[2:]}, the state after {k} rounds '
+                      f'is {[c, h]}'))
+      elif _CK.match(n) and content[2:] != [int(_CK.match(n).group(1)), 0]:
+        out.append(('checkpoint-holds-wrong-round', f'run {i}: {n} does not hold the uninterrupted state of its round'))
     vis = fl['visible_at_start']
     if vis is not None and fl['first_round'] is not None and not fl['load_raised']:
       want = (max(vis) + 1) if vis else 1
@@ -803,6 +870,24 @@ def oracle(case, obs):
     if tsv != ref['tsv']:
       out.append(('final-eval-output-differs', 'the .tsv files after the resumed run differ from the uninterrupted '
                   f'run: {sorted(tsv.items())} vs {sorted(ref["tsv"].items())}'))
+    # every final evaluation with metrics writes its file exactly once in a call that completes
+    # (the model has no name for the colliding evaluation names of form & 4: judged by their bytes above)
+    closes = collections.Counter(e[1] for e in last['trace'] if e[0] == 'cl' and e[1].endswith('.tsv'))
+    want = {f'e{j}.tsv': 1 for j in range(cfg['nev'])}
+    if case.get('form', 0) & 4:
+      want.update({'checkpoint_00000001.tsv': 1, 'checkpoint_.tsv': 1})
+    if dict(closes) != want:
+      out.append(('final-eval-not-once', f'the completing call wrote the final-evaluation files {dict(closes)}, '
+                  f'expected each of {sorted(want)} exactly once'))
+    if not case['crashes'] and not case.get('foreign'):
+      # exact integer arithmetic for an uninterrupted run: rounds saved and rounds retained at the end
+      saved = [k for k in range(1, cfg['R'] + 1) if cfg['freq'] and (k == 1 or k % cfg['freq'] == 0)]
+      kept = ['checkpoint_%08d' % k for k in saved[-cfg['keep']:]]
+      seen = [n for n, _, _ in last['dir'] if _CK.match(n)]
+      events = [e[1] for e in last['trace'] if e[0] == 'saved']
+      if seen != kept or events != saved:
+        out.append(('retention-schedule', f'uninterrupted run: checkpoints saved at rounds {events} and {seen} left, '
+                    f'expected saves at {saved} and {kept} left'))
   elif last['crashed']:
     out.append(('harness-final-run-crashed', 'internal: the final run was not supposed to crash'))
   return out
@@ -959,10 +1044,12 @@ def generate(tier, rng):
     yield base
     tr, rw = _probe(base)
     pts = _crash_points(tr, rw, full, i)
-    if not full and i % 2 == 1:
-      # quick tier, every other configuration: only the crash points that differ in what is on the disk (a crash
+    if not full and i % 4 != 0:
+      # quick tier, three configurations out of four: only the crash points that differ in what is on the disk (a crash
       # before an effect without persistent consequence = a crash before the next file-system effect)
       pts = [p for p in pts if p[0] >= len(tr) or tr[p[0]][0] in ('cr', 'wr', 'cl', 'rn', 'rm')]
+      if cfg['R'] >= 3:      # and of those every other one (alternating between configurations) plus the last
+        pts = pts[(i // 2) % 2::2] + pts[-1:]
     for p in pts:
       yield {**base, 'crashes': [p]}
     # deeper histories
@@ -981,6 +1068,30 @@ def generate(tier, rng):
           tr3, rw3 = _probe({**base, 'crashes': [p1, p2]})
           p3 = rng.choice(_crash_points(tr3, rw3, False, i + 2))
           yield {**base, 'crashes': [p1, p2, p3]}
+  # exhaustive grid of uninterrupted runs: which rounds are saved / retained, against exact integer arithmetic
+  for R in range(0, 13 if full else 10):
+    for freq in range(0, 7 if full else 6):
+      for keep in range(1, 6 if full else 5):
+        if R > 6 or freq > 3 or keep > 3:
+          yield {'algo': 'toy', 'cfg': _cfg(R, freq, keep, (R + freq) % 3, 1), 'root': 0, 'seed': 11, 'form': 0,
+                 'crashes': []}
+  # every call of the history in a NEW interpreter process with a different PYTHONHASHSEED, killed by os._exit
+  pconf = [_cfg(4, 2, 1, 1, 2), _cfg(3, 1, 2, 0, 1)] + ([_cfg(6, 2, 2, 2, 1), _cfg(5, 3, 3, 1, 2), _cfg(2, 1, 1, 0, 0)] if full else [])
+  for j, cfg in enumerate(pconf):
+    base = {'algo': 'toy', 'cfg': cfg, 'root': [0, 3][j % 2], 'seed': 11, 'form': 2 * (j % 2), 'foreign': j % 2, 'crashes': []}
+    tr, rw = _probe(base)
+    pts = [p for p in _crash_points(tr, rw, False, j) if p[0] >= len(tr) or tr[p[0]][0] in ('cr', 'wr', 'cl', 'rn', 'rm')]
+    for p in (pts if full else rng.sample(pts, min(len(pts), 7))):
+      yield {**base, 'crashes': [p], 'procs': [1, 2]}
+    for p1 in rng.sample(pts, min(len(pts), 6 if full else 1)):
+      tr2, rw2 = _probe({**base, 'crashes': [p1]})
+      yield {**base, 'crashes': [p1, rng.choice(_crash_points(tr2, rw2, False, 1))], 'procs': [2, 1, 2]}
+  for algo, cfg in [('mixed', _cfg(2, 1, 1, 0, 1))] + ([('fedavg', _cfg(2, 1, 1, 1, 2)), ('mixed', _cfg(3, 2, 2, 1, 1))] if full else []):
+    base = {'algo': algo, 'cfg': cfg, 'root': 0, 'seed': 7, 'form': 0, 'crashes': []}
+    tr, rw = _probe(base)
+    pts = [p for p in _crash_points(tr, rw, False, 0) if p[0] < len(tr) and tr[p[0]][0] in ('wr', 'rn', 'cl')]
+    for p in rng.sample(pts, min(len(pts), 6 if full else 2)):
+      yield {**base, 'crashes': [p], 'procs': [1, 2]}
   yield from _direct_cases(rng, 150 if full else 40)
   # mixed-kind JAX pytree state (weak scalar, bfloat16 / float16, int32, PRNG key): every crash history must end in a
   # state equal to the uninterrupted one by leaf type, dtype, weak_type and bits
@@ -1030,7 +1141,7 @@ def describe(case, obs):
   cfg = case['cfg']
   return {'hyp_load_save(pickle round trip of every state)': 'holds' if obs['ref'].get('hyp_load_save', True) else 'VIOLATED',
           'hyp_R_lt_1e8_keep_ge_1': 'holds' if 0 <= cfg['R'] < 10 ** 8 and cfg['keep'] >= 1 else 'VIOLATED',
-          'flags': case.get('flags', '-'), 'foreign': case.get('foreign', 0), 'form': case.get('form', 0),
+          'processes': 'one-per-call+os._exit' if case.get('procs') else 'in-process', 'flags': case.get('flags', '-'), 'foreign': case.get('foreign', 0), 'form': case.get('form', 0),
           'algo': case['algo'], 'R': cfg['R'], 'freq': cfg['freq'], 'keep': cfg['keep'], 'evf': cfg['evf'],
           'nev': cfg['nev'], 'depth': len(case['crashes']),
           'crashes_that_happened': sum(1 for r in obs['runs'] if r['crashed']),
